@@ -96,6 +96,8 @@ def run_lib(pid, tier):
         search_part(res, work, tier)
     if pid in ("C20", "C04"):
         arena_part(res, work, tier, pid)
+    if pid == "C20":
+        builder_part(res, work, tier, pid)
     res.cov["traces_validated_against_impl"] = total
     res.cov["evaluations"] = total
     res.cov["distinct_nontrivial"] = total
@@ -204,6 +206,86 @@ def arena_part(res, work, tier, pid="C20"):
     res.cov["arena_histories"] = n
     res.cov["arena_calls_validated"] = lines
     res.assumptions.append("arena binding: model trees are rendered to Markdown by the harness (one fixed rendering per node kind)")
+
+
+def builder_part(res, work, tier, pid="C20"):
+    """Builder.tla (GraphBuilder cursor/insert flag + SectionsBuilder recursion, transcribed) model-checked over every small document,
+    its four historical slips rejected, and the arena the real Graph builds for every document of the universe compared node id by
+    node id with the arena Builder.tla builds (Trace_Builder).  C20 is judged on "model"/"linked"/"panic", C07 on "walk" (every
+    block in the same item or quote at the same depth, in document order)."""
+    vh = build_harness()
+    cfg = "MC_Builder.cfg" if tier == "quick" else "MC_Builder_thorough.cfg"
+    r = tlc("MC_Builder.tla", cfg, os.path.join(work, "mc_builder"), workers=6 if tier == "quick" else 12, timeout=3000, heap="8g")
+    if not tlc_ok(r):
+        res.violation(save_replay(work, pid + "_builder_design", {"tlc_output": r["out"][-6000:]}),
+                      "TLC: Builder.tla (the transcribed graph builder) builds an arena that is not well linked or not the document")
+    res.add_tlc(cfg, r)
+    for slip in ("list", "section", "firstchild", "emptyleading"):
+        rr = tlc("MC_Builder.tla", "MC_Builder_%s.cfg" % slip, os.path.join(work, "mc_builder_" + slip), workers=2, timeout=600)
+        if "is violated" not in rr["out"]:
+            raise ToolError("MC_Builder_%s.cfg no longer fails: the spec lost its teeth" % slip)
+    gcfg = "Gen_Builder.cfg" if tier == "quick" else "Gen_Builder_thorough.cfg"
+    gout = os.path.join(work, "gen_builder.out")
+    g = tlc("MC_Builder.tla", gcfg, os.path.join(work, "gen_builder"), workers=4, timeout=1800, heap="6g", out_file=gout)
+    res.add_tlc("gen:" + gcfg, g)
+    vec = os.path.join(work, "builder_vec.ndjson")
+    n = 0
+    with open(vec, "w") as f:
+        for v in prints_file(gout, "VEC"):
+            f.write(json.dumps(v) + "\n")
+            n += 1
+    os.remove(gout)
+    if not n:
+        raise ToolError("Gen_Builder produced nothing:\n" + g["out"][-2000:])
+    shards = 4 if tier == "quick" else 12
+    evs = [os.path.join(work, "builder_ev.%d.ndjson" % i) for i in range(shards)]
+    built = rejects = 0
+    for rc, out in parallel([[vh, "builder-replay", vec, evs[i], "--shard", "%d/%d" % (i, shards)] for i in range(shards)], 1800):
+        if rc != 0:
+            raise ToolError("builder-replay failed: " + out[-2000:])
+        st = json.loads(out.strip().splitlines()[-1])
+        built += st["built"]
+        rejects += st["render_rejects"]
+
+    def judge(i):
+        r = tlc("Trace_Builder.tla", "Trace_Builder.cfg", os.path.join(work, "trb_%d" % i), workers=1, timeout=3000, env={"TRACE": evs[i]},
+                trace_mode=True, heap="3g")
+        if '"ACCEPTED"' not in r["out"]:
+            raise ToolError("Trace_Builder did not consume %s:\n%s" % (evs[i], r["out"][-3000:]))
+        return i, prints(r["out"], "VERDICT")
+
+    # the binding has teeth: against a model with a slip switched on, the real arenas must differ somewhere
+    rr = tlc("Trace_Builder.tla", "Trace_Builder_teeth.cfg", os.path.join(work, "trb_teeth"), workers=1, timeout=3000, env={"TRACE": evs[0]},
+             trace_mode=True, heap="3g")
+    if not any(b[0] == "model" for v in prints(rr["out"], "VERDICT") for b in v["bad"]):
+        raise ToolError("Trace_Builder_teeth.cfg accepts the real arenas: the binding lost its teeth")
+    reported = 0
+    with concurrent.futures.ThreadPoolExecutor(max_workers=4) as ex:
+        for i, vs in ex.map(judge, range(shards)):
+            byc = None
+            for v in vs:
+                bad = [b for b in v["bad"] if (b[0] == "walk") == (pid == "C07")]
+                if not bad:
+                    continue
+                reported += 1
+                if reported > 40:
+                    res.violation("(not saved)", "builder: case %s %s: %s" % (v["case"], v["variant"], json.dumps(bad)[:200]))
+                    continue
+                if byc is None:
+                    byc = {}
+                    for line in open(evs[i]):
+                        e = json.loads(line)
+                        byc[(e["case"], e["variant"])] = e
+                e = byc.get((v["case"], v["variant"]), {})
+                p = save_replay(work, "%s_builder_%s_%s" % (pid, v["case"], v["variant"]),
+                                {"property": pid, "reasons": bad[:6], "text": e.get("text"), "nodes": e.get("nodes")})
+                res.violation(p, "the arena built from %r %s: %s" % ((e.get("text") or "")[:80],
+                              "is not the document in order and depth" if pid == "C07" else "differs from Builder.tla / is not well linked", json.dumps(bad)[:300]))
+    res.cov["builder_documents"] = n
+    res.cov["builder_arenas_validated"] = built
+    res.cov["builder_render_rejects"] = rejects
+    res.assumptions.append("builder binding: abstract documents are rendered to Markdown in two presentations, kept only when an independent "
+                           "pulldown-cmark projection returns the document (items that start with a list unmerged)")
 
 
 def check_c18(tier):
